@@ -178,9 +178,11 @@ func buildShiftMatchingPredicate(sw swamp.Swamp, beaconType swamp.BeaconType, fi
 	plan := PlanFilter(filters)
 	filterEval := filters
 	var keySet map[string]struct{}
+	useKeySet := false
 	if plan.Mode != PlanModeBypass {
 		candidates := collectBucketCandidates(sw, plan.Hints)
 		keySet = candidateKeySet(candidates)
+		useKeySet = true
 		if verifhook.Enabled {
 			verifhook.Trace("claims.pred", "op", "shiftmatching", "mode", int(plan.Mode), "cand", candidates)
 		}
@@ -189,7 +191,7 @@ func buildShiftMatchingPredicate(sw swamp.Swamp, beaconType swamp.BeaconType, fi
 
 	if !hasTimeBounds {
 		return func(t treasure.Treasure) bool {
-			if keySet != nil {
+			if useKeySet {
 				if _, in := keySet[t.GetKey()]; !in {
 					return false
 				}
@@ -202,7 +204,7 @@ func buildShiftMatchingPredicate(sw swamp.Swamp, beaconType swamp.BeaconType, fi
 		if !inTimeRange(getTs(t), fromNano, toNano) {
 			return false
 		}
-		if keySet != nil {
+		if useKeySet {
 			if _, in := keySet[t.GetKey()]; !in {
 				return false
 			}
